@@ -10,7 +10,7 @@ use debruijn::compression::{compress_graph, compress_kmers_with_hash};
 use debruijn::dna_string::DnaString;
 use debruijn::graph::{BaseGraph, DebruijnGraph};
 use debruijn::vmer::Lmer3;
-use debruijn::{Exts, Kmer, Mer};
+use debruijn::{Dir, Exts, Kmer, Mer};
 
 fn recompress<K: Kmer + Send + Sync>(a: &[&str]) -> String {
     let g: DebruijnGraph<K, u32> = build_graph(a[2] == "1", a[7]);
@@ -64,9 +64,15 @@ fn export_req<K: Kmer + Send + Sync>(a: &[&str]) -> String {
     let mut json: Vec<u8> = Vec::new();
     let rest = if a[4] == "none" { None } else {
         let mut m = serde_json::Map::new();
-        for kv in a[4].split(',') { let (k, v) = kv.split_once('=').unwrap(); m.insert(k.to_string(), serde_json::from_str(v).unwrap()); }
+        // keys travel hex-encoded (ASCII): they may contain quotes, backslashes and control characters
+        for kv in a[4].split(',') {
+            let (k, v) = kv.split_once('=').unwrap();
+            let key: String = (0..k.len() / 2).map(|i| u8::from_str_radix(&k[2 * i..2 * i + 2], 16).unwrap() as char).collect();
+            m.insert(key, serde_json::from_str(v).unwrap());
+        }
         Some(serde_json::Value::Object(m))
     };
+    let rest_copy = rest.clone();
     g.to_json_rest(|d: &u32| serde_json::json!(*d), &mut json, rest);
     let jtxt = String::from_utf8(json).unwrap();
     // the harness's own checks on the JSON text: it parses, lists every node and every right-going link
@@ -75,7 +81,12 @@ fn export_req<K: Kmer + Send + Sync>(a: &[&str]) -> String {
             let nn = v["nodes"].as_array().map(|x| x.len()).unwrap_or(usize::MAX);
             let nl = v["links"].as_array().map(|x| x.len()).unwrap_or(usize::MAX);
             let expect_links: usize = (0..g.len()).map(|i| g.get_node(i).r_edges().len()).sum();
-            nn == g.len() && nl == expect_links
+            // every member of `rest` must come back under its own key with its own value
+            let rest_ok = match &rest_copy {
+                Some(serde_json::Value::Object(m)) => m.iter().all(|(k, val)| v.get(k.as_str()) == Some(val)),
+                _ => true,
+            };
+            nn == g.len() && nl == expect_links && rest_ok
         }
         Err(_) => false,
     };
@@ -142,8 +153,15 @@ fn persist_misc(a: &[&str]) -> String {
 
 use debruijn::Vmer;
 
+fn tips_req<K: Kmer + Send + Sync>(a: &[&str]) -> String {
+    let g: DebruijnGraph<K, u32> = build_graph(a[2] == "1", a[4]);
+    let max_len: usize = a[3].parse().unwrap();
+    show_nat_list(&CleanGraph::new(|n: &debruijn::graph::Node<K, u32>| n.len() < max_len).find_bad_nodes(&g))
+}
+
 pub fn exec09(a: &[&str]) -> String {
     let k: usize = a[1].parse().unwrap();
+    if a[0] == "tips" { return with_graph_kmer!(k, tips_req, a); }
     with_graph_kmer!(k, recompress, a)
 }
 
@@ -212,6 +230,10 @@ pub fn gen09(rng: &mut Rng, tier: &str) -> String {
     let stranded = rng.chance(1, 3);
     let colour = rng.chance(1, 4);
     let (nodes, censor) = with_graph_kmer!(k, gen_graph_nodes, rng, k, tier, stranded, colour);
+    if rng.chance(1, 10) {
+        // the tip finder itself
+        return format!("C09 tips {} {} {} {}", k, stranded as u8, *rng.pick(&[k, k + 1, 2 * k, 3 * k, 1000]), nodes);
+    }
     let (join, reduce) = if colour { ("eq", "first") } else { ("always", *rng.pick(&["sum", "max", "mix"])) };
     format!("C09 recompress {} {} {} {} {} {} {}", k, stranded as u8, stranded as u8, join, reduce, show_nat_list(&censor), nodes)
 }
@@ -276,12 +298,56 @@ pub fn gen20(rng: &mut Rng, tier: &str) -> String {
                     }
                     seqs.iter().enumerate().map(|(i, v)| format!("{}:00:{}", show_digits(v), i)).collect::<Vec<_>>().join(",")
                 }
+                3 | 4 => {
+                    // pipeline graph with dangling extensions: extra bits whose target k-mer is no node end, and/or a node removed
+                    let reads = gen_reads(rng, k, 5, 50);
+                    let nodes = with_graph_kmer!(k, pipe_nodes, &reads, stranded);
+                    let picks: Vec<usize> = (0..6).map(|_| rng.below(1 << 20)).collect();
+                    with_graph_kmer!(k, dangle_nodes, &nodes, stranded, &picks)
+                }
                 _ => { let reads = gen_reads(rng, k, 5, 50); with_graph_kmer!(k, pipe_nodes, &reads, stranded) }
             };
-            let rest = if rng.chance(1, 3) { "meta=1,tag=\"x\"" } else { "none" };
+            let rest = match rng.below(6) {
+                0 => "6d657461=1,746167=\"x\"".to_string(),
+                1 => {
+                    // one to three distinct keys over an alphabet with quotes, backslashes, control characters; sorted
+                    // (serde_json's map iterates in key order)
+                    let alpha: [u8; 12] = [b'a', b'b', b'"', b'\\', b'/', 0x01, 0x08, 0x0c, 0x1f, 0x7f, b'u', b'0'];
+                    let mut keys: Vec<Vec<u8>> = Vec::new();
+                    for _ in 0..rng.range(1, 4) {
+                        let key: Vec<u8> = (0..rng.range(1, 5)).map(|_| *rng.pick(&alpha)).collect();
+                        if !keys.contains(&key) { keys.push(key); }
+                    }
+                    keys.sort();
+                    keys.iter().enumerate().map(|(i, key)| format!("{}={}", key.iter().map(|b| format!("{:02x}", b)).collect::<String>(), i)).collect::<Vec<_>>().join(",")
+                }
+                _ => "none".to_string(),
+            };
             format!("C20 export {} {} {} {}", k, stranded as u8, nodes, rest)
         }
     }
+}
+
+/// node text of the graph with up to three dangling extension bits added (the extended terminal k-mer is no node end,
+/// so no resolvable edge appears or disappears) and, every other time, one node removed (links to it dangle)
+fn dangle_nodes<K: Kmer + Send + Sync>(nodes: &str, stranded: bool, picks: &[usize]) -> String {
+    if nodes == "-" { return nodes.to_string(); }
+    let mut items: Vec<(String, u8, String)> = nodes.split(',').map(|t| { let f: Vec<&str> = t.split(':').collect(); (f[0].to_string(), u8::from_str_radix(f[1], 16).unwrap(), f[2].to_string()) }).collect();
+    if picks[0] % 2 == 0 && items.len() > 1 { items.remove(picks[1] % items.len()); }
+    let txt = |it: &Vec<(String, u8, String)>| it.iter().map(|x| format!("{}:{:02x}:{}", x.0, x.1, x.2)).collect::<Vec<_>>().join(",");
+    let g: DebruijnGraph<K, u32> = build_graph(stranded, &txt(&items));
+    for j in 0..3 {
+        let i = picks[2 + j] % items.len();
+        let dir = if (picks[2 + j] >> 8) % 2 == 0 { Dir::Left } else { Dir::Right };
+        let b = ((picks[2 + j] >> 10) % 4) as u8;
+        let node = g.get_node(i);
+        if node.exts().has_ext(dir, b) { continue; }
+        let term: K = node.sequence().term_kmer(dir);
+        if g.find_link(term.extend(b, dir), dir).is_none() {
+            items[i].1 = Exts::new(items[i].1).set(dir, b).val;
+        }
+    }
+    txt(&items)
 }
 
 fn pipe_nodes<K: Kmer + Send + Sync>(reads: &[Vec<u8>], stranded: bool) -> String {
